@@ -359,7 +359,7 @@ def case_nonmutation(H):
             def on_raise(ctx, e):
                 H.absorb(ctx)      # a raising call cannot have been observed mutating; ignore
 
-            def replay(model, cname=cname, ti=ti, tname=tname):
+            def replay(model, cname=cname, ti=ti, tname=tname, build=build):
                 # concrete re-runs without the engine on a small battery of argument variations (as built / negated quaternions and
                 # vectors / scaled by 2): confirms that some argument's payload is overwritten
                 for variant in ('as-built', 'negated', 'scaled'):
